@@ -18,7 +18,7 @@ func genStructs(o *hx.Out, rng *hx.Rng, n, nmut int) {
 			o.Put(cxs.RunStruct(e, d, "gen"))
 			if i == 0 { // hostile length prefixes / varints at every top-level position (nested readers with wrapped ends)
 				for k, m := range cxs.VarintAttacks(d) {
-					if k%2 == 0 {
+					if k%3 == 0 {
 						o.Put(cxs.RunStruct(e, m, "varint"))
 					}
 				}
